@@ -320,6 +320,30 @@ ValidOps(T) ==
 
 
 -----------------------------------------------------------------------------
+(* show_drift_force_constants on a compact array prints, for the array transposed by the   *)
+(* kernel and for the array itself, _get_drift_per_index: the row sum (over the second    *)
+(* atom index) of largest magnitude, first one in the order (i, k, l), with its (k, l).   *)
+RECURSIVE FirstMax(_, _, _, _)
+FirstMax(sums, q, n, best) ==
+  IF q >= n THEN best
+  ELSE FirstMax(sums, q + 1, n, IF Abs(sums[q]) > Abs(best.v) THEN [v |-> sums[q], q |-> q] ELSE best)
+
+DriftPerIndex(T, R, r) ==
+  LET dd == DD(T)
+      n == T.ns
+      sums == Materialize([q \in 0..(R * dd - 1) |-> SumStride(r.a, (q \div dd) * n * dd + (q % dd) + 1, dd, n)])
+      b == FirstMax(sums, 0, R * dd, [v |-> 0, q |-> 0])
+      g == Gcd(Abs(b.v), r.den)
+  IN [num |-> b.v \div g, den |-> r.den \div g,
+      k |-> IF b.v = 0 THEN 0 ELSE (b.q % dd) \div T.d, l |-> IF b.v = 0 THEN 0 ELSE b.q % T.d]
+
+(* as displayed by the code: through its transposition kernel *)
+DriftShown(T, c) == [first |-> DriftPerIndex(T, T.np, TransposeC(T, c)), second |-> DriftPerIndex(T, T.np, c)]
+(* what it should display: the same for the transposed array of the definition *)
+DriftDef(T, c) ==
+  [first |-> DriftPerIndex(T, T.np, CompactOf(T, FullTranspose(T, FullOf(T, c)))), second |-> DriftPerIndex(T, T.np, c)]
+
+-----------------------------------------------------------------------------
 (* programs *)
 
 RECURSIVE Rep(_, _)
